@@ -429,7 +429,7 @@ def build(env: Env, d: dict):
                 for a in ("__name__", "__qualname__", "__doc__", "__module__"):
                     setattr(self, a, getattr(inner, a))
 
-            def __call__(self, *args, **kwargs):
+            def __call__(self, /, *args, **kwargs):
                 return self.inner(*args, **kwargs)
 
             def __len__(self):
@@ -905,6 +905,8 @@ def gen_args(rng, sig: int, fit: bool):
             kw["c"] = v()
         if len(pos) < 2 and rng.random() < 0.5:
             kw["b"] = v()
+    if sig in (0, 3) and rng.random() < 0.06:
+        kw["self"] = v()     # legal for a plain function with a `**kw` catch-all (forms fn / obj; a method call refuses it itself)
     if not fit:
         r = rng.random()
         if r < 0.4 and pos:
@@ -952,6 +954,8 @@ def gen_case(rng, deco=None) -> str:
         extra += " cancel=1"
     elif deco.startswith(("wasync", "traced")) and rng.random() < 0.2:
         extra += " spawn=1"
+    if form != "fn" and form != "obj":
+        kw.pop("self", None)
     if form == "meth" and rng.random() < 0.5:
         extra += " recv=" + ",".join(rng.choice("aacbse") for _ in range(rng.randint(2, 4)))
     return (f"deco={deco} form={form} root={root} site={'.'.join(site) or '-'} sig={sig} pos={','.join(pos) or '-'} "
@@ -1002,6 +1006,8 @@ def corpus():
         # the receiver of every call of a sequence: instance, shallow copy of it, instance again; subclass with super()
         "deco=traced_s form=fn root=1 site=a1 sig=3 pos=i1 kw=cls:i5 out=r:i2",     # a keyword named like the machinery's own parameter
         "deco=traced_a form=fn root=1 site=- sig=0 pos=i1 kw=cls:i5,k:i2 out=r:i2",
+        "deco=asyn form=fn root=1 site=a1 sig=0 pos=i1 kw=self:i5 out=r:i2",         # a keyword named self
+        "deco=asyn_ex form=fn root=1 site=- sig=3 pos=- kw=self:i5 out=r:i2",
         "deco=m_cache_s form=obj doc=1", "deco=m_retry_s form=obj doc=0", "deco=m_cache_p form=obj doc=1",
         f"deco=asyn form=obj {base}",                          # a callable object with private attributes of its own
         f"deco=asyn_ex form=obj {base} leak=9 rec=4",
